@@ -259,6 +259,8 @@ pub fn run(ctx: &mut Ctx) -> Result<(), Violation> {
                 Oracle: reference lexer + LL(1) parser + truth-table semantics (harness code written from README.md); the answer diagram is walked under every assignment addressing variables BY NAME; is_true/is_false must coincide with validity/unsatisfiability; a sample also goes through `rsbdd --evaluate -t`. \
                 Non-trivial = >= 3 distinct node kinds, >= 2 names, and a non-constant result or a quantifier/counting/fixed-point node; distinct by the canonical rendering of the tree."
         .to_string();
+    ctx.rule.push_str(" Wide texts: ");
+    ctx.rule.push_str(crate::widetext::RULE);
     ctx.assume("references ({name}) are not generated: the statement does not list them");
     ctx.assume("fixed-point bodies are syntactically monotone (sufficient for convergence); the fp hook limit 2^names+2 turns non-termination into a deterministic observation");
 
@@ -400,6 +402,11 @@ pub fn run(ctx: &mut Ctx) -> Result<(), Violation> {
         Ok(())
     });
     ctx.stage("random-fixpoint-formulas", false, r)?;
+    let wc = ctx.tier.cases(1_200, 60_000);
+    crate::widetext::stage_padded(ctx, "padded-formulas-beyond-64-128-256-names", wc, false)?;
+    crate::widetext::stage_counters(ctx, "counter-reachability-fixed-points")?;
+    let wc = ctx.tier.cases(40, 600);
+    crate::widetext::stage_long_lists(ctx, "counting-over-long-lists", wc)?;
     if ctx.tier == Tier::Thorough {
         let r = fuzz_stage(ctx, "sem", 400_000, 300, &[vec![0u8; 8], vec![200u8; 64], (0..=255u8).collect()], replay);
         ctx.stage("libfuzzer-sem", false, r)?;
@@ -449,6 +456,9 @@ fn golden() -> Vec<(String, bool)> {
 }
 
 pub fn replay(case: &Value) -> Check {
+    if let Some(r) = crate::widetext::replay(case) {
+        return r;
+    }
     match case["text"].as_str() {
         Some(t) => check_text(t, case["cli"].as_bool().unwrap_or(false)).map(|_| ()),
         None => Err(Violation::new("unreadable replay case", case.clone())),
